@@ -38,8 +38,10 @@ class FakeTransport:
         self.connected = True
         self.lost = False
         self.taken = 0         # how much of the written stream was consumed
-        self.socket = FakeSocket(creds or (os.getpid(), os.getuid(),
-                                           os.getgid()))
+        # a fixed pid: the value ends up in protocol state and must not
+        # differ between worker processes (state digests are compared
+        # across them)
+        self.socket = FakeSocket(creds or (4242, os.getuid(), os.getgid()))
 
     # ITransport
     def write(self, data):
